@@ -153,7 +153,12 @@ def run_tier(prop, tier, seed, binp, out, runs, budget, nworkers, race, summarie
             # confirm in a fresh process
             cdir = os.path.join(out, "confirm-%d-%d" % (i, idx))
             os.makedirs(cdir, exist_ok=True)
-            cp = spawn(binp, worker_env(prop, tier, seed, cdir, 0, 1, runs, 600, race, {"VERIF_ONLY": str(idx)}), cdir, 0)
+            cextra = {"VERIF_ONLY": str(idx)}
+            if cls.startswith("WATCHDOG"):
+                # "no scheduler step for 30 s" can be machine load: it only counts if the same run also makes
+                # no step for two minutes in a fresh process (a genuine non-terminating loop still does)
+                cextra["VERIF_WATCHDOG_S"] = "120"
+            cp = spawn(binp, worker_env(prop, tier, seed, cdir, 0, 1, runs, 600, race, cextra), cdir, 0)
             try:
                 crc = cp.wait(timeout=900)
             except subprocess.TimeoutExpired:
